@@ -377,6 +377,15 @@ class Func(object):
                     break
         elif n["k"] == "cast":
             res.extend(self.expand_cond(n["a"][0], pol, depth + 1)[1:])
+        if n["k"] == "bin" and n["op"] in ("==", "!=") and isinstance(pol, bool):
+            # `e != 0` is the fact e, `e == 0` its negation (an integer used as a truth value)
+            for lit_i, e_i in ((1, 0), (0, 1)):
+                z = self.nodes.get(n["a"][lit_i])
+                while z is not None and z["k"] == "cast":
+                    z = self.nodes.get(z["a"][0])
+                if z is not None and z["k"] == "int" and z.get("v") == 0:
+                    res.extend(self.expand_cond(n["a"][e_i], pol if n["op"] == "!=" else (not pol), depth + 1))
+                    break
         return res
 
     # ----- path queries ------------------------------------------------------------------------
